@@ -314,17 +314,22 @@ def render(t: dict, L: dict) -> bytes:
     return out + bytes(t.get('pad', b''))
 
 
-H_SEL = st.one_of(
-    st.tuples(st.just('any'), st.integers(0, 63)),
-    st.tuples(st.just('val'), st.integers(0, 23)),
-    st.tuples(st.just('val'), st.integers(0, 23)),
-    st.tuples(st.just('val'), st.integers(0, 23)),
-    st.tuples(st.just('cccd'), st.integers(0, 5)),
-    st.sampled_from([('zero', 0), ('past', 0), ('past', 1), ('max', 0), ('max', 0), ('raw', 1), ('raw', 3), ('raw', 0xFFFE)]),
-    st.tuples(st.just('raw'), st.integers(0, 0xFFFF)),
+def weighted(*pairs):
+    """one_of with weights (one_of itself drops repeated branches and flattens nested one_ofs)."""
+    index = [i for i, (w, _s) in enumerate(pairs) for _ in range(w)]
+    return st.sampled_from(index).flatmap(lambda i: pairs[i][1])
+
+
+H_SEL = weighted(
+    (2, st.tuples(st.just('any'), st.integers(0, 63))),
+    (4, st.tuples(st.just('val'), st.integers(0, 23))),
+    (2, st.tuples(st.just('long'), st.integers(0, 15))),
+    (1, st.tuples(st.just('cccd'), st.integers(0, 5))),
+    (3, st.sampled_from([('zero', 0), ('past', 0), ('past', 1), ('max', 0), ('max', 0), ('raw', 1), ('raw', 3), ('raw', 0xFFFE)])),
+    (1, st.tuples(st.just('raw'), st.integers(0, 0xFFFF))),
 )
-START_SEL = st.one_of(st.sampled_from([('raw', 1), ('raw', 1), ('raw', 1), ('zero', 0)]), H_SEL)
-END_SEL = st.one_of(st.sampled_from([('max', 0), ('max', 0), ('max', 0), ('past', 0)]), H_SEL)
+START_SEL = weighted((1, st.sampled_from([('raw', 1), ('raw', 1), ('raw', 1), ('zero', 0)])), (1, H_SEL))
+END_SEL = weighted((1, st.sampled_from([('max', 0), ('max', 0), ('max', 0), ('past', 0)])), (1, H_SEL))
 LENS = st.one_of(
     st.sampled_from([0, 1, 2, 18, 19, 20, 21, 22, 23, 24, 60, 100, 250, 251, 252, 253, 254, 255, 256, 300, 511, 512]),
     st.integers(0, 512),
@@ -333,28 +338,26 @@ MTUS = st.one_of(
     st.sampled_from([23, 24, 25, 26, 27, 28, 29, 30, 48, 64, 100, 185, 247, 255, 256, 257, 512, 517]),
     st.integers(23, 517),
 )
-CLIENT_MTUS = st.one_of(MTUS, MTUS, MTUS, st.sampled_from([0, 1, 22, 518, 1024, 0xFFFF]))
-UUID_PART = st.one_of(
-    st.tuples(st.just('uuidof'), st.integers(0, 63)),
-    st.tuples(st.just('uuidof'), st.integers(0, 63)),
-    st.sampled_from([('lit', u16(v)) for v in (0x2800, 0x2800, 0x2801, 0x2802, 0x2803, 0x2803, 0x2902, 0x2A00, 0x1234,
-                                               0x1234, 0x1235, 0x1235, 0x2A19, 0x2901, 0x2904, 0x2900)]),
-    st.sampled_from([('lit', U128_A), ('lit', U128_B), ('lit', U128_C)]),
-    st.binary(min_size=16, max_size=16).map(lambda b: ('lit', b)),
-    st.sampled_from([0, 1, 3, 4, 5, 15, 17, 32]).flatmap(lambda n: st.binary(min_size=n, max_size=n)).map(lambda b: ('lit', b)),
+CLIENT_MTUS = weighted((4, MTUS), (1, st.sampled_from([0, 1, 22, 518, 1024, 0xFFFF])))
+UUID_PART = weighted(
+    (4, st.tuples(st.just('uuidof'), st.integers(0, 63))),
+    (4, st.sampled_from([('lit', u16(v)) for v in (0x2800, 0x2800, 0x2801, 0x2802, 0x2803, 0x2803, 0x2902, 0x2A00, 0x1234,
+                                               0x1234, 0x1235, 0x1235, 0x2A19, 0x2901, 0x2904, 0x2900)])),
+    (2, st.sampled_from([('lit', U128_A), ('lit', U128_B), ('lit', U128_C)])),
+    (1, st.binary(min_size=16, max_size=16).map(lambda b: ('lit', b))),
+    (2, st.sampled_from([0, 1, 3, 4, 5, 15, 17, 32]).flatmap(lambda n: st.binary(min_size=n, max_size=n)).map(lambda b: ('lit', b))),
 )
-VALUE_PART = st.one_of(
-    st.tuples(st.just('valof'), st.integers(0, 63)),
-    st.sampled_from([0, 0, 1, 2, 2, 3, 19, 20, 21, 22, 100, 511, 512, 513, 600]).map(lambda n: ('lit', pattern(n))),
-    st.binary(max_size=24).map(lambda b: ('lit', b)),
+VALUE_PART = weighted(
+    (1, st.tuples(st.just('valof'), st.integers(0, 63))),
+    (3, st.sampled_from([0, 0, 1, 2, 2, 3, 19, 20, 21, 22, 100, 511, 512, 513, 600]).map(lambda n: ('lit', pattern(n)))),
+    (1, st.binary(max_size=24).map(lambda b: ('lit', b))),
 )
-HSET_PART = st.one_of(
-    st.lists(H_SEL, min_size=0, max_size=4),
-    st.lists(st.tuples(st.just('val'), st.integers(0, 23)), min_size=1, max_size=6),
-    st.lists(st.tuples(st.just('val'), st.integers(0, 23)), min_size=1, max_size=6),
-    st.sampled_from([8, 11, 12, 40, 130, 300]).flatmap(
+HSET_PART = weighted(
+    (2, st.lists(H_SEL, min_size=0, max_size=4)),
+    (4, st.lists(st.tuples(st.sampled_from(['val', 'val', 'long']), st.integers(0, 23)), min_size=1, max_size=6)),
+    (1, st.sampled_from([8, 11, 12, 40, 130, 300]).flatmap(
         lambda n: st.lists(st.tuples(st.sampled_from(['val', 'val', 'any']), st.integers(0, 23)), min_size=n, max_size=n)
-    ),
+    )),
 ).map(lambda sels: ('hset', sels))
 
 
@@ -371,11 +374,12 @@ def safe_field(draw, spec, last):
     return ('lit', bytes(wire))
 
 
-GROUP_UUID_PART = st.one_of(
-    st.sampled_from([('lit', u16(0x2800)), ('lit', u16(0x2800)), ('lit', u16(0x2801)), ('lit', u16(0x2803))]),
-    UUID_PART,
+GROUP_UUID_PART = weighted(
+    (1, st.sampled_from([('lit', u16(0x2800)), ('lit', u16(0x2800)), ('lit', u16(0x2801)), ('lit', u16(0x2803))])),
+    (1, UUID_PART),
 )
-LONG_SEL = st.one_of(H_SEL, st.tuples(st.just('long'), st.integers(0, 15)), st.tuples(st.just('long'), st.integers(0, 15)))
+_LONG = st.tuples(st.just('long'), st.integers(0, 15))
+LONG_SEL = weighted((1, H_SEL), (3, _LONG))
 
 
 def field_part(name: str, spec, last: bool, names=()):
@@ -391,10 +395,10 @@ def field_part(name: str, spec, last: bool, names=()):
     if kind == 'opaque' and 'group_type' in name:
         return GROUP_UUID_PART
     if kind == 'uint' and d == 2 and 'offset' in name:
-        return st.one_of(
-            st.sampled_from([-2, -1, -1, 0, 0, 0, 0, 1, 1, 2, 22, -22, -10000, 600]).map(lambda v: ('off', v)),
-            st.sampled_from([-1, 0, 0, 1]).map(lambda v: ('off', v)),
-            st.integers(0, 0xFFFF).map(lambda v: ('lit', u16(v))),
+        return weighted(
+            (3, st.sampled_from([-2, -1, -1, 0, 0, 0, 0, 1, 1, 2, 22, -22, -10000, 600]).map(lambda v: ('off', v))),
+            (3, st.sampled_from([0, 0, 0, 1, 2, 22, 23, 100]).map(lambda v: ('lit', u16(v)))),
+            (1, st.integers(0, 0xFFFF).map(lambda v: ('lit', u16(v)))),
         )
     if kind == 'uint' and d == 2 and 'mtu' in name:
         return CLIENT_MTUS.map(lambda v: ('lit', u16(v)))
@@ -431,7 +435,7 @@ def class_template(cls):
             parts.append(specgen.fields_strategy([f], 64).map(lambda d: ('lit', bytes(d[1]))))
         else:
             parts.append(field_part(f[0], f[1], last, names))
-    cut = st.sampled_from([0, 0, 0, 0, 0, 0, 0, 0, 0, 1, 2, 3, 99])
+    cut = st.sampled_from([0] * 16 + [1, 2, 3, 99])
     pad = st.sampled_from([b'', b'', b'', b'', b'', b'', b'', b'', b'\x00', b'\x01\x02\x03'])
     # a type field directly followed by a value field: also the coordinated form (an attribute's type and value)
     coordinated = len(names) >= 2 and names[-2:] == ['attribute_type', 'attribute_value']
@@ -459,7 +463,7 @@ def opcode_template(op: int):
     # also the plain spec-driven form (arbitrary field values) and a random payload
     generic = specgen.fields_strategy(cls.fields, 64).map(lambda d: {'op': op, 'parts': [('lit', bytes(d[1]))]}) \
         if not _has_opaque(cls) else undefined_template([op])
-    return st.one_of(class_template(cls), class_template(cls), class_template(cls), generic, undefined_template([op]))
+    return weighted((4, class_template(cls)), (1, generic), (1, undefined_template([op])))
 
 
 def _has_opaque(cls) -> bool:
@@ -509,8 +513,8 @@ def value_spec():
     )
 
 
-PERMS = st.one_of(st.sampled_from([0x01, 0x03, 0x03, 0x03, 0x05, 0x11, 0x41, 0x0B, 0]), st.integers(0, 255))
-PROPS = st.one_of(st.sampled_from([0x02, 0x0A, 0x12, 0x22, 0x3A, 0x3A, 0xFF, 0]), st.integers(0, 255))
+PERMS = weighted((3, st.sampled_from([0x01, 0x01, 0x03, 0x03, 0x03, 0x03, 0x05, 0x11, 0x41, 0x0B, 0x23, 0])), (1, st.integers(0, 255)))
+PROPS = weighted((2, st.sampled_from([0x02, 0x0A, 0x12, 0x22, 0x3A, 0x3A, 0xFF, 0])), (1, st.integers(0, 255)))
 
 
 def desc_spec():
@@ -531,7 +535,16 @@ def db_spec():
                     st.sampled_from([[], [], [1], [2], [1, 2]]), st.lists(char_spec(), max_size=4)).map(
         lambda d: {'uuid': d[0], 'primary': d[1], 'inc': d[2], 'chars': d[3]}
     )
-    return st.lists(svc, min_size=1, max_size=3).map(lambda lst: {'services': lst})
+    # most databases also get one plainly readable/writable long value (long reads, truncation, subscriptions)
+    anchor = st.sampled_from([None, None, 30, 60, 100, 300, 512, 44, 45, 46, 200, 511])
+
+    def build(d):
+        services, n = d
+        if n is not None:
+            services = [dict(services[0], chars=services[0]['chars'] + [_ch(u16(0x1235), 0x3A, 0x03, 'static', n)])] + services[1:]
+        return {'services': services}
+
+    return st.tuples(st.lists(svc, min_size=1, max_size=3), anchor).map(build)
 
 
 def _ch(uuid, props, perms, kind, n, rep=1, err=0x80, werr=None, delay=0, descs=()):
@@ -595,8 +608,10 @@ def op_strategy(nb: int):
     notify = st.tuples(st.just('notify'), target, length, st.sampled_from([False, False, False, True]), GAPS)
     indicate = st.tuples(st.just('indicate'), target, length, st.sampled_from([False, False, False, True]),
                          st.sampled_from(['now', 'now', 'tick', 'wait']))
+    reads = weighted((3, class_template(att.ATT_Read_Blob_Request)), (1, class_template(att.ATT_Read_Request)),
+                     (1, class_template(att.ATT_Read_By_Type_Request)))
     return {
-        'any': pdu(any_defined), 'request': pdu(any_request), 'undefined': pdu(undefined_template()),
+        'any': pdu(any_defined), 'request': pdu(any_request), 'undefined': pdu(undefined_template()), 'reads': pdu(reads),
         'sub': pdu(subscribe_template()), 'mtu': pdu(mtu_template()), 'notify': notify, 'indicate': indicate,
         'confirm': st.tuples(st.just('pdu'), st.just(b'\x1e'), st.sampled_from(['now', 'tick', 'wait']), bearer),
         'settle': st.just(('settle',)),
@@ -605,20 +620,20 @@ def op_strategy(nb: int):
 
 def ops_strategy(nb: int):
     o = op_strategy(nb)
-    generic_op = st.one_of(o['request'], o['request'], o['request'], o['request'], o['any'], o['any'], o['undefined'],
-                           o['sub'], o['notify'], o['indicate'], o['mtu'], o['confirm'])
-    prefix = st.one_of(st.just([]), o['mtu'].map(lambda x: [x]), o['mtu'].map(lambda x: [x]))
+    generic_op = weighted((8, o['request']), (2, o['reads']), (3, o['any']), (1, o['undefined']), (1, o['sub']), (1, o['notify']),
+                          (1, o['indicate']), (1, o['mtu']), (1, o['confirm']))
+    prefix = weighted((1, st.just([])), (2, o['mtu'].map(lambda x: [x])))
     liveness = st.sampled_from([[], [('pdu', LIVENESS, 'wait', 0)]])
     generic = st.tuples(prefix, st.lists(generic_op, min_size=1, max_size=8), liveness).map(lambda d: d[0] + d[1] + d[2])
     subs = st.lists(
         st.tuples(st.integers(0, 3), st.sampled_from([b'\x02\x00', b'\x03\x00', b'\x03\x00', b'\x01\x00']), st.integers(0, nb - 1)),
         min_size=1, max_size=4,
     ).map(lambda lst: [('pdu', {'op': 0x12, 'parts': [('h', ('cccd', k)), ('lit', bits)]}, 'wait', b) for k, bits, b in lst])
-    push_op = st.one_of(o['indicate'], o['indicate'], o['indicate'], o['notify'], o['request'], o['confirm'], o['undefined'])
+    push_op = weighted((4, o['indicate']), (2, o['notify']), (1, o['request']), (1, o['confirm']), (1, o['undefined']))
     push = st.tuples(prefix, subs, st.lists(push_op, min_size=2, max_size=7), liveness).map(
         lambda d: d[0] + d[1] + d[2] + [('settle',)] + d[3]
     )
-    return st.one_of(generic, generic, push)
+    return weighted((3, generic), (1, push))
 
 
 CONFIRMS = st.lists(st.sampled_from([0, 0, 0, 0.2, 5, 29, None, 'dbl']), min_size=0, max_size=4)
@@ -999,6 +1014,8 @@ def analyse(ctx, case, S, loop) -> None:
                         nontrivial = True
                     else:
                         labels.add(f'rsp:{opname(p[0])}')
+                        if len(p) == bound[b]:
+                            labels.add(f'rsp_fills_mtu:{opname(p[0])}')
                         if p[0] in MULTI_RSP:
                             nontrivial = True
                 if malformed(q):
@@ -1080,7 +1097,10 @@ def run(ctx) -> None:
         ('malformed_request', 20), ('handle:zero', 10), ('handle:past_end', 10), ('handle:ffff', 10),
         ('range:start>end', 5), ('handle_set:empty', 3), ('handle_set:odd', 3), ('handle_set:overlong', 3),
         ('uuid:invalid_len', 5), ('uuid:len16', 5), ('offset:>len', 3), ('offset:=len', 2), ('offset:<len', 2),
-        ('rsp:error', 50), ('pdu_fills_mtu', 20), ('mtu>23', 50), ('db:value_512', 10), ('db:uuid128', 10),
+        ('rsp:error', 50), ('pdu_fills_mtu', 20), ('rsp:READ_BLOB_RESPONSE', 5), ('rsp_fills_mtu:READ_BLOB_RESPONSE', 2),
+        ('rsp_fills_mtu:READ_RESPONSE', 3), ('rsp:READ_BY_TYPE_RESPONSE', 5), ('rsp:READ_BY_GROUP_TYPE_RESPONSE', 3),
+        ('rsp:FIND_BY_TYPE_VALUE_RESPONSE', 3), ('rsp:READ_MULTIPLE_RESPONSE', 5), ('rsp:READ_MULTIPLE_VARIABLE_RESPONSE', 5),
+        ('rsp:FIND_INFORMATION_RESPONSE', 10), ('mtu>23', 50), ('db:value_512', 10), ('db:uuid128', 10),
         ('bearer:fixed', 50), ('bearer:eatt', 20), ('bearer:eatt_two_channels', 5), ('sequence', 50),
         ('notification_sent', 5), ('indication_sent', 10), ('indicate:two_or_more_in_window', 3),
         ('indicate:confirm_delayed', 2),
